@@ -185,6 +185,18 @@ def body_inverse(case):
             p2 = np.asarray(taus.tau_exit_prob(beta, log_e))
         require(np.roll(p2, roll).tobytes() == p1.tobytes(), "exit probabilities do not follow the events after the caller refilled its arrays in place")
     labels = set()
+    if n <= 64 and len(case["events"]) % 3 == 0:
+        # the angles as an astropy Quantity in rad / deg / arcmin: honoured or refused, never read as bare radians
+        from ..strategies import same_values, unit_forms
+
+        for uname, q in unit_forms(beta, "rad", ["deg", "arcmin"]):
+            try:
+                eq_ = np.asarray(getattr(taus.tau_energy(q, log_e, u), "value", None) if hasattr(taus.tau_energy(q, log_e, u), "value") else taus.tau_energy(q, log_e, u), dtype=np.float64)
+            except Exception:  # noqa: BLE001 - refusing a unit-carrying angle is fine
+                labels.add("angle_quantity_refused")
+                continue
+            require(same_values(eq_, E_tau, rtol=1e-12), f"emergence angles given as an astropy Quantity in {uname} are neither honoured nor refused: tau energies {eq_[:3].tolist()} instead of {E_tau[:3].tolist()}")
+            labels.add("angle_quantity_honoured")
     # two overlapping calls (a user thread pool): on ONE object and on two objects of this table version - the batch
     # and the same batch reversed (equal shapes); harness-owned schedule, see nssverif/interleave.py
     if case.get("preempt") and n <= 4096:
